@@ -35,8 +35,8 @@ BUDGET = {"quick": {"examples": 2400}, "thorough": {"examples": 160000, "deadlin
 
 CFG = gen.cfg(max_syms=10, p_range=60, p_menu=18, p_choice=10)
 
-JUNK = (None, True, False, 0, 1, -1, 3.5, 10**30, -(10**30), 1e308, "", "abc", "0x1f", "y", "12", "1.5", [], [1, "a"], {}, {"a": 1}, [[]], "ä中")
-NON_JSON = ("", "{", '{"version": 3, "set": {', "hello", "{'version': 3}", "\x00", '{"version": 3} trailing', "[1, 2")
+JUNK = (None, True, False, 0, 1, -1, 3.5, 10**30, -(10**30), 1e308, "", "abc", "0x1f", "y", "12", "1.5", [], [1, "a"], {}, {"a": 1}, [[]], "ä中", "lone \ud800 surrogate", "[/x]", "[bold]1[/bold]")
+NON_JSON = ('{"version": 3, "set": {"VK_S0": ' + "9" * 5000 + "}}", "", "{", '{"version": 3, "set": {', "hello", "{'version': 3}", "\x00", '{"version": 3} trailing', "[1, 2")
 BAD_VERSIONS = (0, 4, 777, -1, "3", None, 2.5, [3], {"v": 3}, True)
 
 
@@ -57,6 +57,10 @@ def _cases(draw):
     d = gen.D(draw)
     tree = gen._Builder(d, CFG).build()
     names = tree["order"]
+    if d.chance(20):
+        # an option that is referenced but defined nowhere (it evaluates to n; 'X || y' keeps the condition true)
+        e = d.pick(gen.configs(tree))
+        e["depends"].append(["or", ["sym", "VK_UNDEF"], ["y"]])
     initial = gen.gen_assignments(d, tree, CFG, 0, 4, kinds=[(100, "valid")])
     lines = []
     for _ in range(d.int(2, 16)):
@@ -69,7 +73,7 @@ def _cases(draw):
             # ONE key per bad request: whether a value is acceptable (visibility, active range) is judged against the
             # live configuration right before the request, which would be unsound if other keys of the same request
             # could change it
-            n = d.pick(names) if not d.chance(12) else "VK_NOPE"
+            n = d.pick(names) if not d.chance(12) else d.pick(("VK_NOPE", "VK_NOPE", "VK_\ud800"))
             lines.append({"set": {n: ["junk", d.pick(JUNK)]}})
         elif k == "set-mixed":
             # several keys, exactly one of them with a value of the wrong JSON type for its option (a property of the
@@ -84,7 +88,7 @@ def _cases(draw):
         elif k == "reset":
             lines.append({"reset": [d.pick(names + ["@menu:0", "@menu:1", "all"]) for _ in range(d.int(1, 2))]})
         elif k == "reset-bad":
-            lines.append({"reset!": d.pick((None, "all", "VK_S0", 5, {"a": 1}, [None], [5], [["all"]], ["VK_NOPE"], ["no-such-menu-9"], [{}], True))})
+            lines.append({"reset!": d.pick((None, "all", "VK_S0", 5, {"a": 1}, [None], [5], [["all"]], ["VK_NOPE"], ["VK_UNDEF"], ["no-such-menu-9"], [{}], True))})
         elif k == "load":
             lines.append({"load": None if d.chance(50) else "@file:0"})
         elif k == "save":
